@@ -13,8 +13,10 @@
 package main
 
 import (
+	"bytes"
 	"fmt"
 	"go/ast"
+	"go/printer"
 	"go/token"
 	"os"
 	"path/filepath"
@@ -60,6 +62,115 @@ func newDefault(e ast.Expr) (flags, bool) {
 	a, ok1 := boolLit(c.Args[0])
 	b, ok2 := boolLit(c.Args[1])
 	return flags{a, b}, ok1 && ok2
+}
+
+// behavioural: functions of strategy.go whose behaviour the harness ties to the model by running them; every other
+// function/method of the file is pinned by its (whitespace-normalised) source text.
+var behavioural = map[string]bool{
+	"DefaultRESTStrategy.PrepareForCreate": true, "DefaultRESTStrategy.PrepareForUpdate": true,
+	"DefaultStatusRESTStrategy.PrepareForUpdate": true, "HasObjectMetaSpecStatus": true, "specEqual": true, "semanticEqual": true,
+}
+
+func src(g *lib.Gen, n ast.Node) string {
+	var buf bytes.Buffer
+	if err := printer.Fprint(&buf, g.Fset(), n); err != nil {
+		lib.Fatalf("print: %v", err)
+	}
+	return strings.Join(strings.Fields(buf.String()), " ")
+}
+
+// hooksFact: every hook of the strategy types (the generic registry calls them around PrepareFor…: Canonicalize
+// AFTER the comparison and the validation, AllowCreateOnUpdate / AllowUnconditionalUpdate decide which path a
+// request takes, Validate*/WarningsOn*/… would be new hooks), the types' embedded members, and the members of the
+// genericregistry.Store that NewResourceREST fills in (AfterUpdate, Decorator, BeginUpdate … would be new ones).
+func hooksFact(g *lib.Gen) string {
+	sf := g.ParseFile(strategyFile)
+	var hooks, types []string
+	for _, d := range sf.Decls {
+		switch t := d.(type) {
+		case *ast.FuncDecl:
+			name := t.Name.Name
+			if t.Recv != nil && len(t.Recv.List) == 1 {
+				rt := t.Recv.List[0].Type
+				if st, ok := rt.(*ast.StarExpr); ok {
+					rt = st.X
+				}
+				name = src(g, rt) + "." + name
+			}
+			body := "behavioural: run by the harness"
+			if !behavioural[name] {
+				if t.Body == nil {
+					lib.Fatalf("%s has no body", name)
+				}
+				body = src(g, t.Type) + " " + src(g, t.Body)
+			}
+			hooks = append(hooks, fmt.Sprintf("  (%q, %q)", name, body))
+		case *ast.GenDecl:
+			if t.Tok != token.TYPE {
+				continue
+			}
+			for _, sp := range t.Specs {
+				ts := sp.(*ast.TypeSpec)
+				types = append(types, fmt.Sprintf("  (%q, %q)", ts.Name.Name, src(g, ts.Type)))
+			}
+		}
+	}
+	for n := range behavioural {
+		found := false
+		for _, h := range hooks {
+			if strings.HasPrefix(h, fmt.Sprintf("  (%q,", n)) {
+				found = true
+			}
+		}
+		if !found {
+			lib.Fatalf("%s no longer exists in %s", n, strategyFile)
+		}
+	}
+	// NewResourceREST: members of the Store literal and later assignments to store members
+	rf := g.ParseFile("staging/src/github.com/kubewharf/apiserver-runtime/pkg/registry/rest.go")
+	nr := lib.FuncDecl(rf, "", "NewResourceREST")
+	if nr == nil {
+		lib.Fatalf("NewResourceREST not found")
+	}
+	var members []string
+	ast.Inspect(nr.Body, func(n ast.Node) bool {
+		switch t := n.(type) {
+		case *ast.CompositeLit:
+			if strings.HasSuffix(src(g, t.Type), "genericregistry.Store") {
+				for _, e := range t.Elts {
+					kv, ok := e.(*ast.KeyValueExpr)
+					if !ok {
+						lib.Fatalf("positional member in the genericregistry.Store literal")
+					}
+					k := src(g, kv.Key)
+					v := src(g, kv.Value)
+					if k == "NewFunc" || k == "NewListFunc" {
+						v = "func"
+					}
+					members = append(members, fmt.Sprintf("  (%q, %q)", "store."+k, v))
+				}
+			}
+		case *ast.AssignStmt:
+			for i, l := range t.Lhs {
+				if se, ok := l.(*ast.SelectorExpr); ok && i < len(t.Rhs) {
+					if id, ok := se.X.(*ast.Ident); ok && (id.Name == "store" || strings.HasSuffix(id.Name, "Store")) {
+						members = append(members, fmt.Sprintf("  (%q, %q)", id.Name+"."+se.Sel.Name, src(g, t.Rhs[i])))
+					}
+				}
+			}
+		}
+		return true
+	})
+	if len(members) == 0 {
+		lib.Fatalf("no genericregistry.Store literal in NewResourceREST")
+	}
+	var b strings.Builder
+	b.WriteString("/-! every function of " + strategyFile + " that is not run by the harness, by its source text -/\n")
+	b.WriteString("def hooks : List (String × String) := [\n" + strings.Join(hooks, ",\n") + "]\n\n")
+	b.WriteString("def strategyTypes : List (String × String) := [\n" + strings.Join(types, ",\n") + "]\n\n")
+	b.WriteString("/-! members of the generic store set by NewResourceREST -/\n")
+	b.WriteString("def storeMembers : List (String × String) := [\n" + strings.Join(members, ",\n") + "]\n")
+	return b.String()
 }
 
 func main() {
@@ -333,6 +444,7 @@ func main() {
 		b.WriteString("/-! kinds registered by " + restFile + " (in registration order) -/\n")
 		b.WriteString("structure RegFact where\n  kind : String\n  resource : String\n  namespaced : Bool\n  strategySubStatus : Bool\n  optSubStatus : Bool\n  hasMeta : Bool\n  hasSpec : Bool\n  hasStatus : Bool\n  statusFields : Nat\nderiving DecidableEq, Repr\n\n")
 		b.WriteString("def registrations : List RegFact := [\n" + strings.Join(rows, ",\n") + "]\n")
+		b.WriteString("\n" + hooksFact(g))
 		b.WriteString("end KG.Gen.C20\n")
 		g.Emit("C20.lean", b.String())
 		_ = os.Stderr
